@@ -584,10 +584,21 @@ impl Parser {
         Ok(result)
     }
 
+    /// a type, or the blank identifier where a type is required
+    /// (a blank type argument as in `func (l List[_]) Len() int`)
+    fn type_or_blank(&mut self) -> Result<Option<ast::Expression>> {
+        match self.type_or_none()? {
+            None if matches!(&self.current, Some((_, Token::Literal(LitKind::Ident, name))) if name == "_") => {
+                Ok(Some(self.qualified_ident(None)?))
+            }
+            typ => Ok(typ),
+        }
+    }
+
     #[inline]
     fn type_(&mut self) -> Result<ast::Expression> {
         self.inc_expr_level()?;
-        match self.type_or_none()? {
+        match self.type_or_blank()? {
             Some(typ) => {
                 self.dec_expr_level();
                 Ok(typ)
@@ -611,10 +622,10 @@ impl Parser {
 
         let comma = self.skipped(Operator::Comma)?;
         if comma {
-            if let Some(typ) = self.type_or_none()? {
+            if let Some(typ) = self.type_or_blank()? {
                 let mut list = vec![expr, typ];
                 while self.skipped(Operator::Comma)? {
-                    match self.type_or_none()? {
+                    match self.type_or_blank()? {
                         Some(typ) => list.push(typ),
                         None => break,
                     }
